@@ -163,6 +163,17 @@ theorem C19_balance (cx : Ctx) (hnum : NumOK cx) (hsym : SymOK cx.w) (p : Postin
   simp only [strWidth_append] at hacc
   omega
 
+/-- the fallback branch of the balance-only rule: on a long account exactly 2 blanks precede the `=` -/
+theorem C19_balance_fallback (cx : Ctx) (hnum : NumOK cx) (hsym : SymOK cx.w) (p : Posting) (b : VExpr)
+    (ha : p.amount = none) (hb : p.balance = some b)
+    (hlong : ¬ strWidth cx.w (clearMark p.clear ++ p.account.toList) + 3 < 50 + strWidth cx.w (afterNumeric cx b)) :
+    gapWidth cx p = 2 := by
+  have ht := (trailing_no_underflow cx hnum hsym b).2
+  rw [← accountWidth_eq, ← ht] at hlong
+  simp only [gapWidth, ha, hb, balancePadding, Option.isSome_none, Bool.false_eq_true, ↓reduceIte,
+    Params.balanceColumn, Params.balancePadding]
+  rw [getColumn_long hlong]
+
 /-- **C19_balance** (second half) — "its `=` falls where it would after an amount in that commodity": a posting `q` on the
 same account with an aligned amount (no lot, no cost) followed by an assertion, whose amount is followed by text of the
 same width `t` (the same commodity), has its `=` in the same column as the balance-only posting `p`. -/
@@ -428,6 +439,8 @@ example : getColumn 50 60 3 - 1 = 2 ∧ getColumn 50 60 2 - 1 = 1 := by decide
 -- C19_fallback: hypothesis met by a long account
 example : amountPad cx0 { pLong with amount := some { amount := usd 5 0 } } { amount := usd 5 0 } = 2 :=
   C19_fallback cx0 (std_numOK _) (std_symOK _) _ _ (by decide +kernel)
+example : gapWidth cx0 pLong = 2 :=
+  C19_balance_fallback cx0 (std_numOK _) (std_symOK _) pLong _ rfl rfl (by decide +kernel)
 -- C19_balance: `=` in column 54 + 4 (the width of " USD"), with and without an amount before it
 example : strWidth cx0.w (beforeEq cx0 pBal) = 53 + strWidth cx0.w (afterNumeric cx0 (usd 1 0)) :=
   (C19_balance cx0 (std_numOK _) (std_symOK _) pBal (usd 1 0) rfl rfl (by decide +kernel)).2
